@@ -28,6 +28,21 @@ const (
 	actAppend = "(*frac.Active).Append"
 )
 
+// recvOfQueued: v is `<-ch` where ch was stored into the FileWriter queue in fn.
+func recvOfQueued(fn *ssa.Function, v ssa.Value, enq Sel) bool {
+	u, ok := v.(*ssa.UnOp)
+	if !ok || u.Op != token.ARROW {
+		return false
+	}
+	ch := u.X
+	for _, st := range InstrsIn(fn, enq) {
+		if DerivesFrom(st.(*ssa.Store).Val, func(x ssa.Value) bool { return x == ch }) {
+			return true
+		}
+	}
+	return false
+}
+
 func c01() []*Ob {
 	docsWrite := OnField(Callee(fwWrite), "frac.ActiveWriter", "docs")
 	metaWrite := OnField(Callee(fwWrite), "frac.ActiveWriter", "meta")
@@ -99,19 +114,27 @@ func c01() []*Ob {
 						c.Site(rp.Ret.Pos(), "success return without waiting is under fs.skipSync")
 						continue
 					}
-					u, ok := rp.Val.(*ssa.UnOp)
-					if ok && u.Op == token.ARROW {
-						// channel must be the one appended to the queue
-						ch := u.X
-						queued := false
-						for _, st := range InstrsIn(fn, enq) {
-							if DerivesFrom(st.(*ssa.Store).Val, func(v ssa.Value) bool { return v == ch }) {
-								queued = true
+					if recvOfQueued(fn, rp.Val, enq) {
+						c.Site(rp.Ret.Pos(), "returned error is received from the channel that was enqueued for the sync loop")
+						continue
+					}
+					// the wait was moved into a helper: every maybe-nil return of the helper must be such a receive
+					if hc, isCall := rp.Val.(*ssa.Call); isCall {
+						if h := StaticCallee(hc); h != nil && h.Blocks != nil && c.P.InRepo(h) {
+							okAll, n := true, 0
+							for _, hrp := range ReturnPaths(h, ErrorResultIndex(h)) {
+								if DefinitelyNonNil(hrp.Val, hrp.Facts) {
+									continue
+								}
+								n++
+								if !recvOfQueued(h, hrp.Val, enq) {
+									okAll = false
+								}
 							}
-						}
-						if queued {
-							c.Site(rp.Ret.Pos(), "returned error is received from the channel that was enqueued for the sync loop")
-							continue
+							if okAll && n > 0 {
+								c.Site(rp.Ret.Pos(), "returned error is what helper %s received from the channel it enqueued for the sync loop", FuncName(h))
+								continue
+							}
 						}
 					}
 					c.Violation("ack:"+fwWrite+":sync-result", rp.Ret.Pos(), "FileWriter.Write can acknowledge (error operand %s) without waiting for the sync loop's result and not under skipSync", Short(rp.Val.String()))
@@ -129,7 +152,25 @@ func c01() []*Ob {
 				PrecedeI(c, fn, qload, "snapshot of fs.queue", CallSel(syncM), "ws.Sync()")
 				PrecedeI(c, fn, CallSel(syncM), "ws.Sync()", IsSend, "notify waiter")
 				syncs := CallsIn(fn, syncM)
-				loads := InstrsIn(fn, qload)
+				isQueueLoad := func(v ssa.Value) bool {
+					in, ok := v.(ssa.Instruction)
+					return ok && qload(in)
+				}
+				// instructions of fn that produce a queue value: direct loads, or calls of helpers that read the queue
+				mayQ := c.P.MayCall(func(cl ssa.CallInstruction) bool { return false })
+				_ = mayQ
+				var producers []ssa.Instruction
+				for _, b := range fn.Blocks {
+					for _, in := range b.Instrs {
+						if qload(in) {
+							producers = append(producers, in)
+						} else if cl, ok := in.(*ssa.Call); ok {
+							if h := StaticCallee(cl); h != nil && c.P.InRepo(h) && c.P.Locate(h, qload) != nil {
+								producers = append(producers, in)
+							}
+						}
+					}
+				}
 				for _, s := range InstrsIn(fn, IsSend) {
 					snd := s.(*ssa.Send)
 					okVal := false
@@ -141,17 +182,21 @@ func c01() []*Ob {
 					if !okVal {
 						c.Violation("prov:syncLoop:sent-value", snd.Pos(), "the value sent to a waiting writer is not the result of Sync()")
 					}
-					okChan := false
-					for _, l := range loads {
-						lv := l.(ssa.Value)
-						before := false
+					okChan := DerivesFrom(snd.Chan, isQueueLoad)
+					// and not from a queue value produced after Sync
+					for _, pr := range producers {
+						pv, isV := pr.(ssa.Value)
+						if !isV {
+							continue
+						}
+						after := false
 						for _, sc := range syncs {
-							if Dominates(l, sc.(ssa.Instruction)) {
-								before = true
+							if Dominates(sc.(ssa.Instruction), pr) {
+								after = true
 							}
 						}
-						if before && DerivesFrom(snd.Chan, func(v ssa.Value) bool { return v == lv }) {
-							okChan = true
+						if after && DerivesFrom(snd.Chan, func(v ssa.Value) bool { return v == pv }) {
+							okChan = false
 						}
 					}
 					if okChan && okVal {
@@ -360,8 +405,8 @@ func c01() []*Ob {
 							}
 						}
 						callee := StaticCallee(call)
-						stDocs := len(CallsIn(callee, offsetStore("docs"))) > 0
-						stMeta := len(CallsIn(callee, offsetStore("meta"))) > 0
+						stDocs := Current.HasCall(callee, offsetStore("docs"))
+						stMeta := Current.HasCall(callee, offsetStore("meta"))
 						switch {
 						case !argMeta || !argDocs:
 							why = "the truncation positions are not derived from the replayed block sizes (meta: ReadDocBlock size, docs: sum of Ext1)"
